@@ -7,7 +7,7 @@ C19  R19.20 observation.is_deleted            R19.21 revise_namespaces / get_blo
      R19.32 Backbone.fill / wait_for          R19.33 match_namespace / select_specific    R19.34 Ensemble.get_keys/get_tasks/get_flags/del_keys
      R19.35 terminate_redundancies            R19.36 adjust_tasks (wanted = spawned)      R19.37 key computation of the spawners
      R19.38 api.iter_jsonlines                R19.39 api.stream                           R19.40 fetching.list_objs
-     R19.41 (resource, namespace) hand-over   R19.42 scanning.scan_resources
+     R19.41 (resource, namespace) hand-over   R19.42 scanning.scan_resources              R19.43 faults while streaming (watch_objs, infinite_watch)
 C12  R12.20 Vault.select    R12.21 Vault._items    R12.22 re-authentication trigger (invalidate/_expire)    R12.23 Vault.populate
      R12.24 caches flushed before removal; APIContext.close    R12.25 Vault.extended    R12.26 api.request hand-over to the session
 C13  R13.20 Peer record round trip    R13.21 touch/clean payload and addressing; delays    R13.22 detect_own_id    R13.23 guess_selectors
@@ -249,6 +249,19 @@ def top_level(loop: ast.AST, node: ast.AST) -> bool:
     return any(any(x is node for x in ast.walk(s)) and not isinstance(s, (ast.If, ast.Try, ast.While, ast.For, ast.Match, ast.With)) for s in loop.body)
 
 
+def whole_of(e: Optional[ast.AST], name: str) -> bool:
+    """Is ``e`` the whole named collection (possibly copied by list()/set()/..., possibly its .items()/.values()/.keys()) -- not a slice, not a filter?"""
+    e = strip(e)
+    while isinstance(e, ast.Call):
+        if dotted(e.func) in ('list', 'tuple', 'set', 'frozenset', 'sorted') and len(e.args) == 1 and not e.keywords:
+            e = e.args[0]
+        elif isinstance(e.func, ast.Attribute) and e.func.attr in ('items', 'values', 'keys') and not e.args and not e.keywords:
+            e = e.func.value
+        else:
+            return False
+    return e is not None and dotted(e) == name
+
+
 def loop_escapes(loop: ast.AST, kinds=(ast.Break, ast.Continue, ast.Return)) -> list[ast.AST]:
     return [x for s in loop.body for x in walk_no_defs(s) if isinstance(x, kinds)]
 
@@ -460,29 +473,20 @@ def check_resource_scan_scope(ctx: Ctx, rule: str) -> None:
            kinds >= want, loc=f.loc(), construct=construct(f, 'sibling:scanned handler kinds'), detail=f'scans the groups of {sorted(kinds)}')
     scans = [c for c in calls_in(f.node) if is_call_to(repo, f, c, f'{SCAN}.scan_resources')]
     ctx.require_sites(rule, 'resource_observer: the initial scan', len(scans), 1, f.loc())
-    for c in scans:
-        gf = org(f, kwarg(c, 'groups'))
-        ok = False
-        detail = norm(gf)
-        if isinstance(gf, ast.IfExp):
-            atoms: set = set()
-            grp_names = {n.id for n in ast.walk(gf.test) if isinstance(n, ast.Name)}
-
-            def role(e: ast.AST) -> Optional[str]:
-                return 'groups' if isinstance(e, ast.Name) and e.id in grp_names else 'None' if is_none(e) else None
-
-            def leaf(e: ast.AST):
-                if isinstance(e, ast.Compare) and len(e.ops) == 1 and isinstance(e.ops[0], ast.In) and is_none(e.left) and isinstance(e.comparators[0], ast.Name):
-                    return ('any-group', True)
-                return None
-            test = bexpr(f, gf.test, leaf, atoms)
-            all_branch, some_branch = (gf.body, gf.orelse)
-            ok = atoms == {'any-group'} and ((test({'any-group': True}) and is_none(all_branch) and not is_none(some_branch)) or
-                                             (not test({'any-group': True}) and is_none(some_branch) and not is_none(all_branch)))
-        elif is_none(gf) or gf is None:
-            ok = True     # scanning everything is always sufficient
-        ctx.ob(rule, 'resource_observer: when some selector names no API group, ALL groups are scanned (groups=None), else the named ones', ok, loc=f.loc(c),
-               construct=construct(f, 'formula:group filter'), detail=detail)
+    paths = absint.analyse(repo, f, absint.Config(effect_names={f'{SCAN}.scan_resources': 'scan'}))
+    bad, rows = [], set()
+    for p in paths:
+        anyg = p.atom(r'^in\(None, ')
+        for e in p.effects('scan')[:1]:
+            gv = e.kw.get('groups')
+            everything = gv is None or (gv.kind == 'const' and gv.data is None)
+            rows.add(anyg)
+            if anyg is True and not everything:
+                bad.append(f'some selector names no group, yet only `{gv.key[:50]}` is scanned')
+            if anyg is None and not everything:
+                bad.append(f'the scanned groups `{gv.key[:50]}` do not depend on whether a selector names no group')
+    ctx.ob(rule, 'resource_observer: when some selector names no API group, ALL groups are scanned (groups=None)', not bad and bool(rows), loc=f.loc(scans[0]) if scans else f.loc(),
+           construct=construct(f, 'formula:group filter'), detail='; '.join(dict.fromkeys(bad)))
     bb = [n for n in walk_no_defs(f.node) if isinstance(n, ast.Attribute) and n.attr == 'selectors' and (dotted(n.value) or '').endswith('backbone')]
     ctx.ob(rule, 'resource_observer: the groups of the backbone resources (namespaces, CRDs, peerings) are scanned too', bool(bb), loc=f.loc(),
            construct=construct(f, 'flow:backbone groups'))
@@ -942,8 +946,8 @@ def check_selector_select(ctx: Ctx, rule: str) -> None:
     for p in paths:
         spec_v = p.atom(rf'^truthy\({me}\.is_specific\)$')
         rv = p.retval.key if p.retval is not None else ''
-        narrowed = "group == ''" in rv or 'group Eq' in rv
-        inner = [v for k, v in p.atoms.items() if k.startswith('truthy(') and ("group == ''" in k)]
+        narrowed = '.group' in rv           # the returned selection is the one filtered by the resources' group
+        inner = [v for k, v in p.atoms.items() if k.startswith('truthy(') and '.group' in k]
         rows.add((spec_v, tuple(inner)))
         if spec_v is None:
             bad.append('the preference for the core group does not depend on is_specific')
@@ -996,10 +1000,43 @@ def check_backbone(ctx: Ctx, rule: str) -> None:
         ctx.ob(rule, 'Backbone.fill: a backbone resource is registered only for a selector that checks it, and only once (the first one found stays: running tasks keep using it)',
                any(cond_implies(t_, o, absent) for t_, o, _ in conds) and any(cond_implies(t_, o, matches) for t_, o, _ in conds), loc=f.loc(n.stmt),
                construct=construct(f, 'guard:absent and spec.check(resource)'))
+        lps = [fr.stmt for fr in n.frames if fr.kind == 'loop' and isinstance(fr.stmt, ast.For)]
+        all_pairs = len(lps) == 2 and {dotted(strip(l.iter)) for l in lps} == {f'{me}.selectors', param(f, 'resources')} and not any(loop_escapes(l) for l in lps)
+        ctx.ob(rule, 'Backbone.fill considers EVERY backbone selector against EVERY discovered resource', all_pairs, loc=f.loc(n.stmt), construct=construct(f, 'flow:all selectors x all resources'),
+               detail='; '.join(norm(l.iter) for l in lps))
         wf = with_frames(n, '._revised')
         leaked = [m for m in g.reach([n], stop=lambda m: m in notes, edge_ok=normal_edges) if wf and wf[0] not in m.frames and m not in notes]
         ctx.ob(rule, 'Backbone.fill: registration happens under the backbone condition and its waiters (the observers waiting for the namespaces/CRD resources) are notified',
                bool(wf) and not leaked, loc=f.loc(n.stmt), construct=construct(f, 'atomic:fill+notify'))
+    bi = repo.fn(f'{REF}.Backbone.__init__')
+    ctx.analysed(bi)
+    known = {repo.resolve(bi.module, e) for n in walk_no_defs(bi.node) if isinstance(n, ast.Assign) and any(isinstance(t, ast.Attribute) and t.attr == 'selectors' for t in n.targets)
+             and isinstance(n.value, (ast.List, ast.Tuple)) for e in n.value.elts}
+    needed = {}
+    for fn, c in repo.call_sites_of(f'{REF}.Backbone.wait_for', exact=False):
+        if not (dotted(method_call(c, 'wait_for')) or '').endswith('backbone'):
+            continue
+        a = kwarg(c, 'selector', 0)
+        if isinstance(a, ast.Name) and any(p_.arg == a.id for p_ in fn.params()):
+            # handed in by the callers (the webhook configuration managers): one level up
+            for fn2 in repo.all_functions():
+                for c2 in ast.walk(fn2.node):
+                    if isinstance(c2, ast.Call) and kwarg(c2, a.id) is not None and any(fn.qualname.endswith('.' + (dotted(x) or '').rsplit('.', 1)[-1]) for x in [c2.func] + list(c2.args)):
+                        q2 = repo.resolve(fn2.module, kwarg(c2, a.id))
+                        if q2 and q2.startswith(REF + '.'):
+                            needed[q2] = fn2.loc(c2)
+            continue
+        q = repo.resolve(fn.module, a) if a is not None else None
+        needed[q or norm(a)] = fn.loc(c)
+    gs = repo.fn(f'{PEER}.guess_selectors')
+    for n in walk_no_defs(gs.node):
+        if isinstance(n, ast.Return) and isinstance(n.value, (ast.List, ast.Tuple)):
+            for e in n.value.elts:
+                needed[repo.resolve(gs.module, e) or norm(e)] = gs.loc(n)
+    missing = sorted(k for k in needed if k not in known)
+    ctx.ob(rule, f'Backbone: every selector somebody waits for or looks up ({len(needed)}: namespaces, CRDs, peerings, ...) is among the selectors the backbone resolves -- else the '
+           'observer of that dimension waits forever and nothing of it is ever served', bool(needed) and not missing, loc=needed[missing[0]] if missing else bi.loc(),
+           construct=construct(bi, 'keys:selectors cover the waited ones'), detail=', '.join(m.rsplit('.', 1)[-1] for m in missing))
     w = repo.fn(f'{REF}.Backbone.wait_for')
     ctx.analysed(w)
     me, sel = self_name(w), w.params()[1].arg
@@ -1283,14 +1320,12 @@ def _spawn_paths(ctx: Ctx, fname: str, res_param: str, ns_param: str):
     repo = ctx.repo
     f = repo.fn(f'{ORC}.{fname}')
     ctx.analysed(f)
-    loops = [n for n in walk_no_defs(f.node) if isinstance(n, ast.For) and isinstance(n.iter, ast.Call) and (repo.resolve(f.module, n.iter.func) or '') == 'itertools.product']
-    if len(loops) != 1:
-        raise AnalysisError(f'{f.loc()}: expected one loop over itertools.product(resources, namespaces) in {fname}')
+    loops = [n for n in walk_no_defs(f.node) if isinstance(n, ast.For) and any(is_call_to(repo, f, c, f'{ORC}.EnsembleKey') for c in calls_in(n))]
+    if len(loops) != 1 or not (isinstance(loops[0].target, ast.Tuple) and len(loops[0].target.elts) == 2 and all(isinstance(t, ast.Name) for t in loops[0].target.elts)):
+        raise AnalysisError(f'{f.loc()}: expected one loop `for resource, namespace in ...` that forms the ensemble keys in {fname}')
     loop = loops[0]
-    order_ok = [dotted(a) for a in loop.iter.args] == [param(f, res_param), param(f, ns_param)] and isinstance(loop.target, ast.Tuple) and len(loop.target.elts) == 2 \
-        and all(isinstance(t, ast.Name) for t in loop.target.elts)
-    if not (isinstance(loop.target, ast.Tuple) and len(loop.target.elts) == 2 and all(isinstance(t, ast.Name) for t in loop.target.elts)):
-        raise AnalysisError(f'{f.loc(loop)}: the loop of {fname} does not unpack (resource, namespace)')
+    order_ok = isinstance(loop.iter, ast.Call) and (repo.resolve(f.module, loop.iter.func) or '') == 'itertools.product' and not loop.iter.keywords \
+        and [dotted(a) for a in loop.iter.args] == [param(f, res_param), param(f, ns_param)]
 
     def eff(it, p, call, names):
         if f'{ORC}.EnsembleKey' in names:
@@ -1423,7 +1458,9 @@ def check_iter_jsonlines(ctx: Ctx, rule: str) -> None:
     finds = [c for c in calls_in(outer) if method_call(c, 'find') is not None and dotted(method_call(c, 'find')) == buf and len(c.args) == 2 and isinstance(c.args[1], ast.Name)]
     whiles = [n for n in walk_no_defs(outer) if isinstance(n, ast.While)]
     if len(whiles) != 1 or not finds:
-        raise AnalysisError(f'{f.loc(outer)}: the line-splitting loop (`while <index of the separator> >= 0`) was not recognised in {f.short}')
+        ctx.ob(rule, 'iter_jsonlines: the buffer is split by a loop that searches the next separator FROM the start of the unconsumed part (buffer.find(separator, start))', False,
+               loc=f.loc(outer), construct=construct(f, 'flow:line splitting'), detail=f'{len(whiles)} splitting loops, {len(finds)} searches with a start position')
+        return
     wh, st = whiles[0], finds[0].args[1].id
     sep = src(finds[0].args[0])
     idxs = {t.id for n in walk_no_defs(outer) if isinstance(n, ast.Assign) and any(n.value is c for c in finds) for t in n.targets if isinstance(t, ast.Name)}
@@ -1523,6 +1560,15 @@ def check_stream(ctx: Ctx, rule: str) -> None:
     esc = g.escaping_exits(adds, rems, edge_ok=nonnull) if adds else []
     ctx.ob(rule, 'stream: the close-callback is removed from the stopper on every exit (the long-lived pause waiter does not accumulate callbacks of dead responses)',
            bool(adds) and not esc, loc=f.loc(), construct=construct(f, 'pair:add/remove close-callback'), detail=', '.join(e.label for e in esc))
+    others = {dotted(c.args[0]) for n in g.nodes if n.stmt is not None and n.kind == 'stmt' for c in calls_in(n.stmt) if recv_is(c, 'add_done_callback', stopper) and c.args and dotted(c.args[0]) not in closers}
+    for cb in sorted(x for x in others if x):
+        a2 = g.stmt_nodes(lambda x: isinstance(x, ast.Call) and recv_is(x, 'add_done_callback', stopper) and x.args and dotted(x.args[0]) == cb)
+        r2 = g.stmt_nodes(lambda x: isinstance(x, ast.Call) and recv_is(x, 'remove_done_callback', stopper) and x.args and dotted(x.args[0]) == cb)
+        esc2 = g.escaping_exits(a2, r2, edge_ok=nonnull)
+        stale = [l for l in loops if l in g.reach(a2, stop=lambda n: n in set(r2), edge_ok=nonnull)]
+        ctx.ob(rule, f'stream: the request-phase callback `{cb}` (it cancels the CURRENT task) is removed from the stopper on every exit and before any line is read -- a later pause '
+               'must close the response, not cancel whatever task happens to run', bool(r2) and not esc2 and not stale, loc=f.loc(a2[0].stmt), construct=construct(f, f'pair:add/remove {cb}'),
+               detail=', '.join(e.label for e in esc2) or ('still armed while the lines are read' if stale else ''))
     tests = set(g.stmt_nodes(lambda x: isinstance(x, ast.Call) and recv_is(x, 'done', stopper))) & g.reach(reqs, edge_ok=normal_edges)
     untested = [l for l in loops if l in g.reach(reqs, stop=lambda n: n in tests, edge_ok=both)]
     ctx.ob(rule, 'stream: after the response headers arrived the stopper is consulted again before any line is read', bool(tests) and not untested, loc=f.loc(), construct=construct(f, 'dom:done-test after the request'))
@@ -1710,11 +1756,660 @@ def check_scanning(ctx: Ctx, rule: str) -> None:
         ok = ok and same
     ctx.ob(rule, '_read_version: every listed resource except the sub-resources ("x/status") becomes a Resource of the scanned group/version with its plural name, scope and '
            'preferred flag', ok and len(comps) == 1, loc=rv.loc(comps[0]) if comps else rv.loc(), construct=construct(rv, 'flow:resources of a version'))
+    core = [c for c in ast.walk(old.node) if isinstance(c, ast.Call) and is_call_to(repo, old, c, f'{SCAN}._read_version')]
+    ctx.ob(rule, '_read_old_api: the versions of the core API are scanned as group "" and as preferred (unversioned selectors such as `pods` match them)', len(core) == 1
+           and isinstance(kwarg(core[0], 'preferred'), ast.Constant) and kwarg(core[0], 'preferred').value is True and isinstance(kwarg(core[0], 'group'), ast.Constant) and kwarg(core[0], 'group').value == '',
+           loc=old.loc(core[0]) if core else old.loc(), construct=construct(old, 'config:core group preferred'))
     prefs = [kwarg(c, 'preferred') for c in ast.walk(new.node) if isinstance(c, ast.Call) and is_call_to(repo, new, c, f'{SCAN}._read_version')]
     ok = len(prefs) == 1 and isinstance(prefs[0], ast.Compare) and isinstance(prefs[0].ops[0], ast.Eq) and 'preferredVersion' in src(prefs[0]) \
         and sum(1 for x in ast.walk(prefs[0]) if isinstance(x, ast.Constant) and x.value == 'version') >= 2
     ctx.ob(rule, '_read_new_apis: a version is preferred iff it is the preferredVersion of its group (unversioned selectors serve exactly one version of a resource)', ok, loc=new.loc(),
            construct=construct(new, 'formula:preferred'), detail=norm(prefs[0]) if prefs else '')
+
+
+
+
+QUIET_FAULTS = ['aiohttp.ClientConnectionError', 'aiohttp.ServerDisconnectedError', 'aiohttp.ClientOSError', 'aiohttp.ClientPayloadError', 'asyncio.TimeoutError', 'TimeoutError']
+LOUD_FAULTS = [f'{ERR}.APIServerError', f'{ERR}.APIForbiddenError', f'{ERR}.APINotFoundError', f'{ERR}.APIUnauthorizedError', f'{ERR}.APIError',
+               f'{WATCH}.WatchingError', 'RuntimeError', 'ValueError', 'Exception', 'asyncio.CancelledError']
+
+
+def _fate(repo, f: FuncInfo, site: ast.AST, cls: str) -> str:
+    """What happens to an exception of class ``cls`` raised at ``site``: 'quiet' (caught, not re-raised), 'reraised', or 'propagates'."""
+    p = f.module.parent.get(site)
+    child = site
+    while p is not None and p is not f.node:
+        if isinstance(p, ast.Try) and any(child is s or any(child is x for x in ast.walk(s)) for s in p.body):
+            for h in p.handlers:
+                classes = ['BaseException'] if h.type is None else [repo.resolve(f.module, e) or src(e) for e in (h.type.elts if isinstance(h.type, ast.Tuple) else [h.type])]
+                if any(repo.is_subclass(cls, c) for c in classes):
+                    return 'reraised' if any(isinstance(x, ast.Raise) for s in h.body for x in walk_no_defs(s)) else 'quiet'
+        child = p
+        p = f.module.parent.get(p)
+    return 'propagates'
+
+
+def check_stream_faults(ctx: Ctx, rule: str) -> None:
+    repo = ctx.repo
+    f = repo.fn(f'{WATCH}.watch_objs')
+    ctx.analysed(f)
+    sites = [c for c in ast.walk(f.node) if isinstance(c, ast.Call) and is_call_to(repo, f, c, f'{API}.stream')]
+    ctx.require_sites(rule, 'watch_objs: the streaming request', len(sites), 1, f.loc())
+    for c in sites:
+        for cls in QUIET_FAULTS:
+            fate = _fate(repo, f, c, cls)
+            ctx.ob(rule, f'watch_objs: a {cls.rsplit(".", 1)[-1]} while streaming ends this watch request quietly (continuous_watch resumes from the latest version seen; the watcher '
+                   'does not die of a disconnect)', fate == 'quiet', loc=f.loc(c), construct=construct(f, f'dispatch:{cls}'), detail=fate)
+        for cls in LOUD_FAULTS:
+            fate = _fate(repo, f, c, cls)
+            ctx.ob(rule, f'watch_objs: a {cls.rsplit(".", 1)[-1]} is not silenced here (it is no disconnect: the stream must not silently continue as if nothing happened)',
+                   fate != 'quiet', loc=f.loc(c), construct=construct(f, f'dispatch:{cls}'), detail=fate)
+    iw = repo.fn(f'{WATCH}.infinite_watch')
+    ctx.analysed(iw)
+    loops = [n for n in walk_no_defs(iw.node) if isinstance(n, (ast.AsyncFor, ast.For)) and any(is_call_to(repo, iw, c, f'{WATCH}.continuous_watch') for c in calls_in(org(iw, n.iter) or n.iter))]
+    ctx.require_sites(rule, 'infinite_watch: consumption of the continuous stream', len(loops), 1, iw.loc())
+    for lp in loops:
+        fate429 = _fate(repo, iw, lp, f'{ERR}.APITooManyRequestsError')
+        ctx.ob(rule, 'infinite_watch: a 429 that escalated after all retries does not end the watcher: the stream is simply started again (fresh listing)', fate429 == 'quiet', loc=iw.loc(lp),
+               construct=construct(iw, 'dispatch:429'), detail=fate429)
+        for cls in LOUD_FAULTS + QUIET_FAULTS[:1]:
+            fate = _fate(repo, iw, lp, cls)
+            ctx.ob(rule, f'infinite_watch: a {cls.rsplit(".", 1)[-1]} out of the stream is not swallowed (an unknown ERROR event / a fatal API error is never silently skipped)',
+                   fate != 'quiet', loc=iw.loc(lp), construct=construct(iw, f'dispatch:{cls}'), detail=fate)
+        ys = [y for s in lp.body for y in walk_no_defs(s) if isinstance(y, ast.Yield)]
+        ok = len(ys) == 1 and top_level(lp, ys[0]) and dotted(ys[0].value) == dotted(lp.target) and not loop_escapes(lp)
+        ctx.ob(rule, 'infinite_watch passes EVERY event of the continuous stream on, unchanged and unconditionally', ok, loc=iw.loc(lp), construct=construct(iw, 'flow:every event yielded'))
+    whiles = [n for n in walk_no_defs(iw.node) if isinstance(n, ast.While) and any(any(x is lp for x in ast.walk(n)) for lp in loops)]
+    it_param = [a.arg for a in iw.params() if a.arg.startswith('_')]
+    ok = False
+    if len(whiles) == 1:
+        atoms: set = set()
+
+        def leaf(e: ast.AST):
+            if isinstance(e, ast.Compare) and isinstance(e.ops[0], ast.Is) and is_none(e.comparators[0]) and dotted(e.left) in it_param:
+                return ('unlimited', True)
+            return ('other', True)
+        code = bexpr(iw, whiles[0].test, leaf, atoms)
+        forever = (isinstance(whiles[0].test, ast.Constant) and whiles[0].test.value is True) or all(code({'unlimited': True, 'other': b}) for b in (False, True))
+        ok = forever and not [x for s in whiles[0].body for x in walk_no_defs(s) if isinstance(x, (ast.Break, ast.Return))]
+    ctx.ob(rule, 'infinite_watch: outside of tests (no iteration limit) the stream is re-created forever -- after a 410, a disconnect during the listing, a pause or a 429 the '
+           'resource is listed and watched again; only an exception ends it', ok, loc=iw.loc(whiles[0]) if whiles else iw.loc(), construct=construct(iw, 'loop:forever'))
+
+
+# ============================================================================================== C12: the credentials vault
+def _attr_of_self(f: FuncInfo, e: Optional[ast.AST], attr: str) -> bool:
+    return e is not None and dotted(e) == f'{self_name(f)}.{attr}'
+
+
+def check_vault_select(ctx: Ctx, rule: str) -> None:
+    repo = ctx.repo
+    f = repo.fn(f'{CRED}.Vault.select')
+    ctx.analysed(f)
+    me = self_name(f)
+    paths = absint.analyse(repo, f, absint.Config())
+    table_check(ctx, rule, f, paths, {'CUR': rf'^truthy\({me}\._current\)$'}, lambda v: 'return' if v['CUR'] else f'{CRED}.LoginError',
+                lambda p: p.exc if p.status == 'raise' else p.status, what='Vault.select: with no current credentials the request fails with LoginError, otherwise some are returned')
+    mentions = {n.attr for n in ast.walk(f.node) if isinstance(n, ast.Attribute) and dotted(n.value) == me}
+    loops = [n for n in walk_no_defs(f.node) if isinstance(n, ast.For) and isinstance(n.iter, ast.Call) and method_call(n.iter, 'items') is not None and _attr_of_self(f, method_call(n.iter, 'items'), '_current')]
+    ctx.ob(rule, 'Vault.select draws only from the CURRENT credentials (never from the invalidated ones), all of them', len(loops) == 1 and '_invalid' not in mentions and not loop_escapes(loops[0]) if loops else False,
+           loc=f.loc(), construct=construct(f, 'confine:only _current'), detail=str(sorted(mentions)))
+    ok = False
+    detail = ''
+    if len(loops) == 1 and isinstance(loops[0].target, ast.Tuple) and len(loops[0].target.elts) == 2:
+        kv, iv = (dotted(t) for t in loops[0].target.elts)
+        groups = [c for c in calls_in(loops[0]) if method_call(c, 'append') is not None and isinstance(method_call(c, 'append'), ast.Subscript)]
+        if len(groups) == 1 and top_level(loops[0], groups[0]):
+            sub = method_call(groups[0], 'append')
+            table, by = dotted(sub.value), dotted(sub.slice)
+            pair = groups[0].args[0] if groups[0].args else None
+            pair_ok = isinstance(pair, ast.Tuple) and [dotted(e) for e in pair.elts] == [kv, iv]
+            tops = [n for n in walk_no_defs(f.node) if isinstance(n, ast.Assign) and isinstance(n.value, ast.Call) and dotted(n.value.func) in ('max', 'min') and table in src(n.value)]
+            top = tops[0].targets[0].id if len(tops) == 1 and isinstance(tops[0].targets[0], ast.Name) else None
+            picks = [c for c in calls_in(f.node) if (repo.resolve(f.module, c.func) or '').startswith('random.') and c.args and isinstance(c.args[0], ast.Subscript)
+                     and dotted(c.args[0].value) == table and dotted(c.args[0].slice) == top]
+            rets = [n.value for n in walk_no_defs(f.node) if isinstance(n, ast.Return) and n.value is not None]
+            flows = False
+            if len(picks) == 1 and len(rets) == 1:
+                st = repo.stmt_of(f.module, picks[0])
+                if st in f.node.body and isinstance(st, ast.Return):
+                    flows = True
+                elif st in f.node.body and isinstance(st, ast.Assign) and len(st.targets) == 1:
+                    bound = [dotted(e) for e in (st.targets[0].elts if isinstance(st.targets[0], ast.Tuple) else [st.targets[0]])]
+                    returned = [dotted(e) for e in (rets[0].elts if isinstance(rets[0], ast.Tuple) else [rets[0]])]
+                    later = [x for x in f.node.body[f.node.body.index(st) + 1:] for n_ in walk_no_defs(x) if isinstance(n_, ast.Name) and isinstance(n_.ctx, ast.Store) and n_.id in bound]
+                    flows = bound == returned and not later and f.node.body.index(st) > f.node.body.index(loops[0])
+            ok = by == f'{iv}.info.priority' and pair_ok and len(tops) == 1 and dotted(tops[0].value.func) == 'max' and flows
+            detail = f'grouped by {by}, top = {norm(tops[0].value) if tops else None}'
+    ctx.ob(rule, 'Vault.select: the credentials are grouped by their priority and one of the HIGHEST priority group is returned (lower-priority credentials are a fallback only)',
+           ok, loc=f.loc(), construct=construct(f, 'formula:max priority'), detail=detail)
+
+
+def check_vault_items(ctx: Ctx, rule: str) -> None:
+    repo = ctx.repo
+    f, g = cfg_of(ctx, f'{CRED}.Vault._items')
+    me = self_name(f)
+    sel = g.call_nodes(f'{CRED}.Vault.select')
+    exp = g.call_nodes(f'{CRED}.Vault._expire')
+    rdy = g.stmt_nodes(lambda x: isinstance(x, ast.Call) and recv_is(x, 'wait_for', '_guard') and x.args and isinstance(x.args[0], ast.Lambda) and dotted(x.args[0].body) == f'{me}._ready')
+    ys = g.stmt_nodes(lambda x: isinstance(x, ast.Yield))
+    ctx.require_sites(rule, 'Vault._items: selection of the credentials to offer', len(sel), 1, f.loc())
+    ctx.require_sites(rule, 'Vault._items: the offer (yield)', len(ys), 1, f.loc())
+    locked = all(with_frames(n, '._guard') for n in sel + exp + rdy)
+    ctx.ob(rule, 'Vault._items: under the vault lock, in this order: wait until the vault is ready (a running re-authentication has finished), discard the expired credentials, '
+           'then select -- so that neither expired nor not-yet-replaced credentials are offered', bool(sel) and bool(exp) and bool(rdy) and locked and not g.dominated(exp, rdy) and not g.dominated(sel, exp),
+           loc=f.loc(sel[0].stmt) if sel else f.loc(), construct=construct(f, 'order:ready<expire<select'))
+    ctx.ob(rule, 'Vault._items: the credentials are offered OUTSIDE the vault lock (the consumer must be able to invalidate them; all blocked requests proceed)',
+           bool(ys) and not any(with_frames(y, '._guard') for y in ys), loc=f.loc(ys[0].stmt) if ys else f.loc(), construct=construct(f, 'atomic:yield outside the lock'))
+    for y in ys:
+        yv = [x for x in walk_no_defs(y.stmt) if isinstance(x, ast.Yield)][0].value
+        tg = [n.stmt.targets[0] for n in sel if isinstance(n.stmt, ast.Assign)]
+        same = isinstance(yv, ast.Tuple) and bool(tg) and isinstance(tg[0], ast.Tuple) and [dotted(e) for e in yv.elts] == [dotted(e) for e in tg[0].elts]
+        ctx.ob(rule, 'Vault._items offers exactly the (key, item) pair that was selected', same, loc=f.loc(y.stmt), construct=construct(f, 'flow:yield the selected'))
+        if not same:
+            continue
+        kv, iv = (dotted(e) for e in yv.elts)
+        brks = [n for n in g.reach([y]) if n.kind == 'break']
+        early = [n for n in g.nodes if n.kind == 'break' and n not in brks]
+
+        def still_key(e: ast.AST, o: bool) -> bool:
+            return isinstance(e, ast.Compare) and len(e.ops) == 1 and isinstance(e.ops[0], ast.In) and o is True and dotted(e.left) == kv and dotted(e.comparators[0]) == f'{me}._current'
+
+        def still_same(e: ast.AST, o: bool) -> bool:
+            if isinstance(e, ast.Compare) and len(e.ops) == 1 and isinstance(e.ops[0], ast.Is) and o is True:
+                a, b = e.left, e.comparators[0]
+                for x, z in ((a, b), (b, a)):
+                    if isinstance(x, ast.Subscript) and dotted(x.value) == f'{me}._current' and dotted(x.slice) == kv and dotted(z) == iv:
+                        return True
+            return False
+        ok = bool(brks) and not early
+        for b in brks:
+            conds = dominating_conditions(g, b)
+            ok = ok and any(cond_implies(t, o, still_key) for t, o, _ in conds) and any(cond_implies(t, o, still_same) for t, o, _ in conds) and bool(with_frames(b, '._guard'))
+        ctx.ob(rule, 'Vault._items: the iteration ends only if the offered item is STILL the current one of its key (same object: it was not invalidated by the consumer); '
+               'otherwise the next credentials are offered -- the failed request is re-run with fresh credentials', ok, loc=f.loc(brks[0].stmt) if brks else f.loc(),
+               construct=construct(f, 'guard:break iff still current (is)'))
+
+
+def check_vault_expiry(ctx: Ctx, rule: str) -> None:
+    repo = ctx.repo
+    f, g = cfg_of(ctx, f'{CRED}.Vault._expire')
+    me = self_name(f)
+    dels = g.stmt_nodes(lambda x: isinstance(x, ast.Delete) and any(isinstance(t, ast.Subscript) and dotted(t.value) == f'{me}._current' for t in x.targets))
+    ctx.require_sites(rule, 'Vault._expire: removal of an expired item', len(dels), 1, f.loc())
+    nows = {n.targets[0].id for n in walk_no_defs(f.node) if isinstance(n, ast.Assign) and isinstance(n.targets[0], ast.Name) and isinstance(n.value, ast.Call)
+            and (repo.resolve(f.module, n.value.func) or '').endswith('datetime.now')}
+    for n in dels:
+        loops = [fr.stmt for fr in n.frames if fr.kind == 'loop' and isinstance(fr.stmt, ast.For)]
+        snap = bool(loops) and isinstance(loops[-1].iter, ast.Call) and dotted(loops[-1].iter.func) in ('list', 'tuple', 'sorted') and whole_of(loops[-1].iter, f'{me}._current')
+        item = dotted(loops[-1].target.elts[1]) if loops and isinstance(loops[-1].target, ast.Tuple) and len(loops[-1].target.elts) == 2 else None
+        exps = {x.targets[0].id for x in walk_no_defs(loops[-1]) if isinstance(x, ast.Assign) and isinstance(x.targets[0], ast.Name) and dotted(x.value) == f'{item}.info.expiration'} if loops else set()
+
+        def not_none(e: ast.AST, o: bool) -> bool:
+            return isinstance(e, ast.Compare) and isinstance(e.ops[0], ast.Is) and is_none(e.comparators[0]) and dotted(e.left) in exps and o is False
+
+        def due(e: ast.AST, o: bool) -> bool:
+            if isinstance(e, ast.Compare) and len(e.ops) == 1 and o is True:
+                l, r, op = dotted(e.left), dotted(e.comparators[0]), e.ops[0]
+                return (l in nows and r in exps and isinstance(op, ast.GtE)) or (l in exps and r in nows and isinstance(op, ast.LtE))
+            return False
+        conds = dominating_conditions(g, n)
+        inner = [(t, o) for t, o, b in conds if loops and any(fr.stmt is loops[-1] for fr in b.frames) and not (isinstance(t, ast.Constant))]
+        ok = snap and any(cond_implies(t, o, not_none) for t, o in inner) and any(cond_implies(t, o, due) for t, o in inner) and len(inner) == 2
+        ctx.ob(rule, 'Vault._expire: every current item whose expiration time has come (now >= expiration; no expiration = never) is removed from the current credentials -- '
+               'expired credentials are never selected', ok, loc=f.loc(n.stmt), construct=construct(f, 'guard:remove iff now >= expiration'),
+               detail='; '.join(f'{norm(t, 50)} is {o}' for t, o in inner))
+        naive = [x for x in walk_no_defs(loops[-1]) if isinstance(x, ast.Call) and method_call(x, 'replace') is not None and kwarg(x, 'tzinfo') is not None] if loops else []
+        ctx.ob(rule, 'Vault._expire: a timezone-naive expiration is read as UTC before it is compared with the (timezone-aware) clock', bool(naive), loc=f.loc(n.stmt),
+               construct=construct(f, 'config:naive expiration = UTC'))
+    ue = repo.fn(f'{CRED}.Vault._update_expiration')
+    ctx.analysed(ue)
+    w = [n for n in walk_no_defs(ue.node) if isinstance(n, ast.Assign) and any(_attr_of_self(ue, t, '_next_expiration') for t in n.targets)]
+    mins = [c for n in w for c in calls_in(n.value) if dotted(c.func) in ('min', 'max')]
+    ctx.ob(rule, 'Vault._update_expiration: the next check is due at the EARLIEST expiration of the current credentials', len(w) == 1 and len(mins) == 1 and dotted(mins[0].func) == 'min'
+           and '_current' in src(ue.node, 2000), loc=ue.loc(), construct=construct(ue, 'formula:min expiration'))
+    # whoever changes the current credentials re-computes the next expiration afterwards
+    n_sites = 0
+    for fn in repo.functions_in(CRED):
+        if fn.cls is None or fn.cls.qualname != f'{CRED}.Vault' or fn.name in ('__init__', '_update_expiration'):
+            continue
+        gg = cfg_of(ctx, fn)[1]
+        me2 = self_name(fn)
+        muts = gg.stmt_nodes(lambda x: (isinstance(x, (ast.Assign, ast.Delete)) and any(isinstance(t, ast.Subscript) and dotted(t.value) == f'{me2}._current' for t in x.targets)))
+        if not muts:
+            continue
+        n_sites += len(muts)
+        ups = gg.call_nodes(f'{CRED}.Vault._update_expiration')
+        esc = gg.escaping_exits(muts, ups, classes=('normal',), edge_ok=normal_edges)
+        ctx.ob(rule, f'Vault.{fn.name}: after the current credentials changed, the time of the next expiration is re-computed (else an expiring item is noticed too late or never)',
+               bool(ups) and not esc, loc=fn.loc(muts[0].stmt), construct=construct(fn, 'allexits:_update_expiration'))
+    ctx.require_sites(rule, 'Vault: changes of the current credentials', n_sites, 3)
+
+
+def check_vault_reauth(ctx: Ctx, rule: str) -> None:
+    repo = ctx.repo
+    f = repo.fn(f'{CRED}.Vault.invalidate')
+    ctx.analysed(f)
+    me, key, info, exc = self_name(f), param(f, 'key'), param(f, 'info'), param(f, 'exc')
+
+    def eff(it, p, call, names):
+        if f'{CRED}.Vault._flush_caches' in names:
+            return 'flush'
+        if recv_is(call, 'notify_all', '_guard'):
+            return 'notify'
+        if recv_is(call, 'wait_for', '_guard'):
+            return 'wait'
+        return None
+    paths = absint.analyse(repo, f, absint.Config(effect=eff))
+    ctx.count('paths', len(paths))
+    atoms = {'IN': rf'^in\({key}, {me}\._current\)$', 'SAME': rf'^eq\(({info}, {me}\._current\[{key}\]\.info|{me}\._current\[{key}\]\.info, {info})\)$',
+             'CUR': rf'^truthy\({me}\._current\)$', 'EXC0': rf'^isnone\({exc}\)$'}
+
+    def observe(p):
+        out = []
+        for e in p.trace:
+            if e.label in ('flush', 'notify', 'wait'):
+                out.append(e.label)
+            elif e.label == f'setitem:{me}._invalid':
+                out.append('remember')
+            elif e.label == f'delitem:{me}._current':
+                out.append('remove' if e.kw['index'].key == key else 'remove-another')
+            elif e.label == f'write:{me}._ready':
+                out.append('unready' if e.kw['value'].key == 'False' else 'ready')
+        return (tuple(out), p.exc if p.status == 'raise' else 'ok')
+
+    def spec(v):
+        out = ('flush', 'remember', 'remove') if v['IN'] and v['SAME'] else ()
+        if not v['CUR']:
+            out += ('unready', 'notify', 'wait')
+        return (out, f'{CRED}.LoginError' if not v['CUR'] and not v['EXC0'] else 'ok')
+    table_check(ctx, rule, f, paths, atoms, spec, observe,
+                what='Vault.invalidate: the reported credentials are discarded (caches flushed, remembered as invalid, removed) iff they are STILL the current ones of their key; '
+                     'if nothing current is left the vault is marked not ready, the authenticator is notified and the caller waits for new credentials; if there are still none '
+                     'the original error surfaces as LoginError')
+    ident = [n for n in walk_no_defs(f.node) if isinstance(n, ast.Compare) and len(n.ops) == 1 and isinstance(n.ops[0], (ast.Is, ast.Eq)) and dotted(n.comparators[0]) == info or
+             (isinstance(n, ast.Compare) and len(n.ops) == 1 and isinstance(n.ops[0], (ast.Is, ast.Eq)) and dotted(n.left) == info)]
+    ctx.ob(rule, 'Vault.invalidate recognises "still the current ones" by IDENTITY of the reported credentials (several requests hit by one 401 report the same object; '
+           'equal credentials obtained by the re-authentication are a new object and stay)', len(ident) == 1 and isinstance(ident[0].ops[0], ast.Is), loc=f.loc(ident[0]) if ident else f.loc(),
+           construct=construct(f, 'formula:identity of the reported credentials'))
+    # the same trigger when everything has expired
+    x = repo.fn(f'{CRED}.Vault._expire')
+    ctx.analysed(x)
+    mx = self_name(x)
+    flags = set()
+    for n in walk_no_defs(x.node):
+        if isinstance(n, ast.Delete) and any(isinstance(t, ast.Subscript) and dotted(t.value) == f'{mx}._current' for t in n.targets):
+            par = x.module.parent.get(n)
+            body = getattr(par, 'body', [])
+            flags |= {s.targets[0].id for s in body if isinstance(s, ast.Assign) and isinstance(s.targets[0], ast.Name) and isinstance(s.value, ast.Constant) and s.value.value is True}
+    trig = [n for n in walk_no_defs(x.node) if isinstance(n, ast.If) and any(isinstance(s, ast.Assign) and any(_attr_of_self(x, t, '_ready') for t in s.targets)
+                                                                                and isinstance(s.value, ast.Constant) and s.value.value is False for s in n.body)]
+    ok = len(trig) == 1 and len(flags) == 1
+    if ok:
+        fl = next(iter(flags))
+        atoms_: set = set()
+        code = bexpr(x, trig[0].test, lambda e: ('expired', True) if dotted(e) == fl else ('current', True) if dotted(e) == f'{mx}._current' else None, atoms_)
+        d = tt_diff(code, lambda v: v['expired'] and not v['current'], atoms_ | {'expired', 'current'})
+        body = trig[0].body
+        seq = [('unready' if isinstance(s, ast.Assign) else 'notify' if any(recv_is(c, 'notify_all', '_guard') for c in calls_in(s)) else 'wait' if any(recv_is(c, 'wait_for', '_guard') for c in calls_in(s)) else '?')
+               for s in body]
+        ok = d is None and seq == ['unready', 'notify', 'wait']
+    ctx.ob(rule, 'Vault._expire: when the expiry removed the LAST current credentials, the vault is marked not ready, the authenticator is notified and the caller waits for new '
+           'credentials (instead of failing with "ran out of credentials")', ok, loc=x.loc(trig[0]) if trig else x.loc(), construct=construct(x, 'table:re-authentication after expiry'))
+    # populate: new credentials, then ready, then wake everybody up
+    pf = repo.fn(f'{CRED}.Vault.populate')
+    ctx.analysed(pf)
+    mp = self_name(pf)
+
+    def eff2(it, p, call, names):
+        if f'{CRED}.Vault._update_converted' in names:
+            return 'update'
+        if recv_is(call, 'notify_all', '_guard'):
+            return 'notify'
+        return None
+    pp = absint.analyse(repo, pf, absint.Config(effect=eff2))
+    seqs = {tuple('ready' if e.label == f'write:{mp}._ready' and e.kw['value'].key == 'True' else e.label for e in p.trace if e.label in ('update', 'notify') or e.label.startswith('write:')) for p in pp}
+    g2 = cfg_of(ctx, pf)[1]
+    locked = all(with_frames(n, '._guard') for n in g2.stmt_nodes(lambda x_: isinstance(x_, ast.Call) and (recv_is(x_, 'notify_all', '_guard') or is_call_to(repo, pf, x_, f'{CRED}.Vault._update_converted'))))
+    ctx.ob(rule, 'Vault.populate: under the lock the new credentials are stored, THEN the vault is marked ready and ALL waiting requests are woken up (they proceed with the fresh '
+           'credentials)', seqs == {('update', 'ready', 'notify')} and locked, loc=pf.loc(), construct=construct(pf, 'order:update<ready<notify_all'), detail=str(sorted(seqs)))
+    vi = repo.fn(f'{CRED}.Vault.__init__')
+    ctx.analysed(vi)
+    mi = self_name(vi)
+    r0 = [n.value for n in walk_no_defs(vi.node) if isinstance(n, (ast.Assign, ast.AnnAssign)) and any(dotted(t) == f'{mi}._ready' for t in (n.targets if isinstance(n, ast.Assign) else [n.target]))]
+    ok0 = len(r0) == 1 and isinstance(r0[0], ast.UnaryOp) and isinstance(r0[0].op, ast.Not) and isinstance(r0[0].operand, ast.Call) and dotted(r0[0].operand.func) == f'{mi}.is_empty'
+    ie = repo.fn(f'{CRED}.Vault.is_empty')
+    ctx.analysed(ie)
+    rets = [org(ie, n.value) for n in walk_no_defs(ie.node) if isinstance(n, ast.Return) and n.value is not None]
+    okf = False
+    if len(rets) == 1 and isinstance(rets[0], ast.Call) and dotted(rets[0].func) == 'all' and rets[0].args and isinstance(rets[0].args[0], (ast.GeneratorExp, ast.ListComp)):
+        gen = rets[0].args[0]
+        v = gen.generators[0].target.id if isinstance(gen.generators[0].target, ast.Name) else None
+        atoms_e: set = set()
+
+        def leaf_e(e: ast.AST):
+            if isinstance(e, ast.Compare) and len(e.ops) == 1 and isinstance(e.ops[0], (ast.GtE, ast.LtE)):
+                l, r = dotted(e.left), dotted(e.comparators[0])
+                if (r == v and isinstance(e.ops[0], ast.GtE)) or (l == v and isinstance(e.ops[0], ast.LtE)):
+                    return ('due', True)
+            return role_leaf(lambda x: 'dt' if dotted(x) == v else None)(e)
+        code = bexpr(ie, gen.elt, leaf_e, atoms_e)
+        okf = tt_diff(code, lambda val: not val['none:dt'] and val['due'], atoms_e | {'none:dt', 'due'}) is None and not gen.generators[0].ifs
+    ctx.ob(rule, 'Vault: a new vault is ready iff it holds credentials that are not all expired (empty = every item has an expiration that has come); an empty one waits for the '
+           'first authentication instead of failing', ok0 and okf, loc=vi.loc(), construct=construct(vi, 'formula:initially ready = not empty'))
+    src_ok = [c for c in calls_in(pf.node) if is_call_to(repo, pf, c, f'{CRED}.Vault._update_converted')]
+    ctx.ob(rule, 'Vault.populate stores exactly the credentials it was given', len(src_ok) == 1 and src_ok[0].args and dotted(src_ok[0].args[0]) == pf.params()[1].arg, loc=pf.loc(),
+           construct=construct(pf, 'flow:populate(src)'))
+
+
+def check_vault_cleanup(ctx: Ctx, rule: str) -> None:
+    """Session closed on invalidation/expiry: the caches of an item are flushed before the item leaves the vault."""
+    repo = ctx.repo
+    n_sites = 0
+    for name in ('invalidate', '_expire'):
+        f, g = cfg_of(ctx, f'{CRED}.Vault.{name}')
+        me = self_name(f)
+        dels = g.stmt_nodes(lambda x: isinstance(x, ast.Delete) and any(isinstance(t, ast.Subscript) and dotted(t.value) == f'{me}._current' for t in x.targets))
+        for d in dels:
+            n_sites += 1
+            t = [t for t in d.stmt.targets if isinstance(t, ast.Subscript)][0]
+            kv = dotted(t.slice)
+            loops = [fr.stmt for fr in d.frames if fr.kind == 'loop' and isinstance(fr.stmt, ast.For)]
+            item_names = {f'{me}._current[{kv}]'}
+            if loops and isinstance(loops[-1].target, ast.Tuple) and len(loops[-1].target.elts) == 2 and dotted(loops[-1].target.elts[0]) == kv:
+                item_names.add(dotted(loops[-1].target.elts[1]))
+            fl = g.stmt_nodes(lambda x: isinstance(x, ast.Call) and is_call_to(repo, f, x, f'{CRED}.Vault._flush_caches') and x.args and src(x.args[0]) in item_names)
+            awaited = all(isinstance(f.module.parent.get(c), ast.Await) for n in fl for c in calls_in(n.stmt) if is_call_to(repo, f, c, f'{CRED}.Vault._flush_caches'))
+            ctx.ob(rule, f'Vault.{name}: before an item leaves the current credentials, ITS cached objects (the aiohttp session built from it) are closed -- a session of '
+                   'invalidated/expired credentials is not left open or reused', bool(fl) and awaited and not g.dominated([d], fl), loc=f.loc(d.stmt), construct=construct(f, 'order:flush<remove'))
+    ctx.require_sites(rule, 'Vault: removals of an item from the current credentials', n_sites, 2)
+    fc = repo.fn(f'{CRED}.Vault._flush_caches')
+    ctx.analysed(fc)
+    item = fc.params()[1].arg
+    loops = [n for n in walk_no_defs(fc.node) if isinstance(n, ast.For) and whole_of(n.iter, f'{item}.caches')]
+    closes = [c for lp in loops for c in calls_in(lp) if isinstance(c.func, ast.Call) and dotted(c.func.func) == 'getattr' and len(c.func.args) == 2
+              and isinstance(c.func.args[1], ast.Constant) and c.func.args[1].value == 'close' or (isinstance(c.func, ast.Attribute) and c.func.attr == 'close')]
+    awaited = [c for c in closes if isinstance(fc.module.parent.get(c), ast.Await)]
+    resets = [n for n in fc.node.body if isinstance(n, ast.Assign) and any(dotted(t) == f'{item}.caches' for t in n.targets) and is_none(n.value)]
+    ctx.ob(rule, 'Vault._flush_caches: every cached object that has `close` is closed (awaited when it is a coroutine function), then the caches are dropped', len(loops) == 1 and len(closes) >= 2
+           and len(awaited) >= 1 and len(awaited) < len(closes) and bool(resets) and not loop_escapes(loops[0]), loc=fc.loc(), construct=construct(fc, 'flow:close every cached object'))
+    ac = repo.fn(f'{AUTH}.APIContext.close')
+    ctx.analysed(ac)
+    ma = self_name(ac)
+    sess = [c for c in calls_in(ac.node) if method_call(c, 'close') is not None and dotted(method_call(c, 'close')) == f'{ma}.session' and isinstance(ac.module.parent.get(c), ast.Await)]
+    resp = [c for c in calls_in(ac.node) if is_call_to(repo, ac, c, f'{AUTH}.APIContext.close_open_responses')]
+    ctx.ob(rule, 'APIContext.close: the open responses of the session (running watch-streams) are closed and the aiohttp session itself is closed (awaited), unconditionally',
+           len(sess) == 1 and len(resp) == 1 and all(any(s.value is x or getattr(s.value, 'value', None) is x for s in ac.node.body if isinstance(s, ast.Expr)) for x in sess + resp), loc=ac.loc(),
+           construct=construct(ac, 'flow:close responses and session'))
+    cor = repo.fn(f'{AUTH}.APIContext.close_open_responses')
+    ctx.analysed(cor)
+    mc = self_name(cor)
+    lp = [n for n in walk_no_defs(cor.node) if isinstance(n, ast.For) and dotted(n.iter) == f'{mc}.responses' and isinstance(n.target, ast.Name)]
+    ok = len(lp) == 1 and any(method_call(c, 'close') is not None and dotted(method_call(c, 'close')) == lp[0].target.id for c in calls_in(lp[0])) and not loop_escapes(lp[0])
+    ctx.ob(rule, 'APIContext.close_open_responses closes every tracked response that is still open', ok, loc=cor.loc(), construct=construct(cor, 'flow:close all responses'))
+    ar = repo.fn(f'{AUTH}.APIContext.add_response')
+    ctx.analysed(ar)
+    mr, rp = self_name(ar), ar.params()[1].arg
+    g3 = cfg_of(ctx, ar)[1]
+    apps = g3.stmt_nodes(lambda x: isinstance(x, ast.Call) and method_call(x, 'append') is not None and dotted(method_call(x, 'append')) == f'{mr}.responses' and x.args and dotted(x.args[0]) == rp)
+    conds = [(t, o) for n in apps for t, o, _ in dominating_conditions(g3, n)]
+    ctx.ob(rule, 'APIContext.add_response remembers every response that is still open (so that it can be closed with the session)', len(apps) == 1 and all(
+        cond_implies(t, o, lambda e, oo: dotted(e) == f'{rp}.closed' and oo is False) for t, o in conds) and len(conds) <= 1, loc=ar.loc(), construct=construct(ar, 'flow:responses.append(open response)'))
+    vc = repo.fn(f'{CRED}.Vault.close')
+    ctx.analysed(vc)
+    mv = self_name(vc)
+    lp = [n for n in walk_no_defs(vc.node) if isinstance(n, ast.For) and whole_of(n.iter, f'{mv}._current')]
+    ok = len(lp) == 1 and any(is_call_to(repo, vc, c, f'{CRED}.Vault._flush_caches') and isinstance(vc.module.parent.get(c), ast.Await) for c in calls_in(lp[0])) and not loop_escapes(lp[0])
+    ctx.ob(rule, 'Vault.close flushes the caches of every current item when the operator ends', ok, loc=vc.loc(), construct=construct(vc, 'flow:flush all on close'))
+
+
+def check_vault_extended(ctx: Ctx, rule: str) -> None:
+    repo = ctx.repo
+    f, g = cfg_of(ctx, f'{CRED}.Vault.extended')
+    factory, purpose = param(f, 'factory'), param(f, 'purpose')
+    loops = [n for n in walk_no_defs(f.node) if isinstance(n, ast.AsyncFor) and any(is_call_to(repo, f, c, f'{CRED}.Vault._items') for c in calls_in(n.iter))]
+    if len(loops) != 1 or not isinstance(loops[0].target, ast.Tuple) or len(loops[0].target.elts) != 2:
+        raise AnalysisError(f'{f.loc()}: expected `async for key, item in self._items()` in Vault.extended')
+    kv, iv = (dotted(e) for e in loops[0].target.elts)
+    builds = g.stmt_nodes(lambda x: isinstance(x, ast.Call) and dotted(x.func) == factory)
+    ctx.require_sites(rule, 'Vault.extended: construction of the cached object (the API context with its session)', len(builds), 1, f.loc())
+    for n in builds:
+        c = [c for c in calls_in(n.stmt) if dotted(c.func) == factory][0]
+        stored = isinstance(n.stmt, ast.Assign) and isinstance(n.stmt.targets[0], ast.Subscript) and dotted(n.stmt.targets[0].value) == f'{iv}.caches' and dotted(n.stmt.targets[0].slice) == purpose
+        from_info = len(c.args) == 1 and dotted(c.args[0]) == f'{iv}.info'
+
+        def absent(e: ast.AST, o: bool) -> bool:
+            return isinstance(e, ast.Compare) and len(e.ops) == 1 and isinstance(e.ops[0], ast.In) and o is False and dotted(e.left) == purpose and dotted(e.comparators[0]) == f'{iv}.caches'
+        once = any(cond_implies(t, o, absent) for t, o, _ in dominating_conditions(g, n))
+        ctx.ob(rule, 'Vault.extended: the object (session) is built from the connection info of THIS item, only when the item has none for the purpose yet, and is stored in the item\'s '
+               'caches -- which is what gets closed when the item is invalidated', stored and from_info and once and bool(with_frames(n, '._guard')), loc=f.loc(n.stmt),
+               construct=construct(f, 'flow:caches[purpose] = factory(item.info) once'))
+    ys = [y for y in walk_no_defs(loops[0]) if isinstance(y, ast.Yield)]
+    ok = len(ys) == 1 and isinstance(ys[0].value, ast.Tuple) and len(ys[0].value.elts) == 3 and dotted(ys[0].value.elts[0]) == kv and dotted(ys[0].value.elts[1]) == f'{iv}.info'
+    third = strip(ys[0].value.elts[2]) if ok else None
+    ok = ok and isinstance(third, ast.Subscript) and dotted(third.value) == f'{iv}.caches' and dotted(third.slice) == purpose and top_level(loops[0], ys[0])
+    ctx.ob(rule, 'Vault.extended offers (key, info, cached object) of one and the same item; the object is the CACHED one (what invalidate() is later called with identifies '
+           'the item whose session is closed)', bool(ok), loc=f.loc(ys[0]) if ys else f.loc(), construct=construct(f, 'flow:yield (key, item.info, item.caches[purpose])'))
+
+
+def check_request_handover(ctx: Ctx, rule: str) -> None:
+    repo = ctx.repo
+    f = repo.fn(f'{API}.request')
+    ctx.analysed(f)
+    raw = [c for c in calls_in(f.node) if any(n.startswith('aiohttp.ClientSession.') for n in repo.callee_names(f, c)) and method_call(c, 'request') is not None]
+    ctx.require_sites(rule, 'api.request: the raw session request', len(raw), 1, f.loc())
+    for c in raw:
+        want = {'method': 'method', 'url': 'url', 'json': 'payload', 'headers': 'headers', 'timeout': 'timeout'}
+        wrong = [k for k, v in want.items() if dotted(kwarg(c, k)) != param(f, v)]
+        ctx.ob(rule, 'api.request hands method, URL, payload (as JSON body), headers and timeout to the session as given (a retried attempt repeats the very same request)',
+               not wrong and (dotted(method_call(c, 'request')) or '').endswith('.session'), loc=f.loc(c), construct=construct(f, 'config:session.request(...)'),
+               detail=', '.join(f'{k}={norm(kwarg(c, k))}' for k in wrong))
+    ctxp = param(f, 'context')
+    rel = [n for n in f.node.body if isinstance(n, ast.If) and any(isinstance(s, ast.Assign) and any(dotted(t) == param(f, 'url') for t in s.targets) for s in n.body)]
+    ok = len(rel) == 1 and isinstance(rel[0].test, ast.Compare) and isinstance(rel[0].test.ops[0], ast.NotIn) and isinstance(rel[0].test.left, ast.Constant) and rel[0].test.left.value == '://' \
+        and dotted(rel[0].test.comparators[0]) == param(f, 'url') and f'{ctxp}.server' in src(rel[0].body[0].value, 300) and param(f, 'url') in {n.id for n in ast.walk(rel[0].body[0].value) if isinstance(n, ast.Name)}
+    ctx.ob(rule, 'api.request: a relative URL is resolved against the server of the credentials the attempt runs with (after a re-authentication: the new server)', ok,
+           loc=f.loc(rel[0]) if rel else f.loc(), construct=construct(f, 'flow:url relative to context.server'))
+    # the decorator: with an explicit context nothing is re-authenticated, but responses are tracked in both arms
+    deco = repo.fn(f'{AUTH}.authenticated')
+    inner = [fn for fn in repo.all_functions() if fn.outer is deco]
+    if len(inner) != 1:
+        raise AnalysisError(f'{deco.loc()}: expected exactly one wrapper inside auth.authenticated')
+    w = inner[0]
+    ctx.analysed(w)
+    fparam = deco.params()[0].arg
+    calls = [c for c in calls_in(w.node) if isinstance(c.func, ast.Name) and c.func.id == fparam]
+    tracked = 0
+    for c in calls:
+        st = repo.stmt_of(w.module, c)
+        tgt = st.targets[0].id if isinstance(st, ast.Assign) and isinstance(st.targets[0], ast.Name) else None
+        blk = [b for b in ast.walk(w.node) if isinstance(getattr(b, 'body', None), list) and st in b.body]
+        sib = blk[0].body[blk[0].body.index(st) + 1:] if blk else []
+        adds = [x for s in sib for x in walk_no_defs(s) if isinstance(x, ast.Call) and method_call(x, 'add_response') is not None and x.args and dotted(x.args[0]) == tgt]
+        rets = [s for s in sib if isinstance(s, ast.Return) and dotted(s.value) == tgt]
+        if adds and rets:
+            tracked += 1
+    ctx.ob(rule, 'authenticated: in both arms (explicit context / vault credentials) the response is registered with the context that produced it and returned -- the open '
+           'responses of invalidated credentials can be closed with their session', len(calls) == 2 and tracked == 2, loc=w.loc(), construct=construct(w, 'flow:add_response in both arms'),
+           detail=f'{tracked} of {len(calls)} call sites')
+
+
+
+# ============================================================================================== C13: peering helpers
+def _plain_number(e: ast.AST, name: str) -> bool:
+    """`name`, `int(name)` or `float(name)` -- the value as given, nothing substituted."""
+    while isinstance(e, ast.Call) and dotted(e.func) in ('int', 'float') and len(e.args) == 1 and not e.keywords:
+        e = e.args[0]
+    return dotted(e) == name
+
+
+def check_peer_record(ctx: Ctx, rule: str) -> None:
+    """What one operator writes into the peering object (Peer.as_dict) is what the others read back (Peer.__init__)."""
+    repo = ctx.repo
+    init, ad = repo.fn(f'{PEER}.Peer.__init__'), repo.fn(f'{PEER}.Peer.as_dict')
+    ctx.analysed(init, ad)
+    me, ma = self_name(init), self_name(ad)
+    rets = [n.value for n in walk_no_defs(ad.node) if isinstance(n, ast.Return) and n.value is not None]
+    d = org(ad, rets[0]) if len(rets) == 1 else None
+    if not isinstance(d, ast.Dict) or not all(isinstance(k, ast.Constant) for k in d.keys):
+        raise AnalysisError(f'{ad.loc()}: Peer.as_dict does not return a literal record')
+    written = {k.value: v for k, v in zip(d.keys, d.values)}
+    kwonly = {a.arg for a in init.node.args.kwonlyargs + init.node.args.args} - {me, 'identity'}
+    ctx.ob(rule, f'Peer: the published record carries every field the readers interpret ({sorted(kwonly)}) under the very names Peer.__init__ accepts', set(written) == kwonly, loc=ad.loc(d),
+           construct=construct(ad, 'keys:as_dict = __init__ fields'), detail=f'written {sorted(written)}, read {sorted(kwonly)}')
+    sets = {n.targets[0].attr: n.value for n in walk_no_defs(init.node) if isinstance(n, ast.Assign) and len(n.targets) == 1 and isinstance(n.targets[0], ast.Attribute) and dotted(n.targets[0].value) == me}
+    lt_r, lt_w = sets.get('lifetime'), written.get('lifetime')
+    unit_r = isinstance(lt_r, ast.Call) and (repo.resolve(init.module, lt_r.func) or '').endswith('timedelta') and [k.arg for k in lt_r.keywords] == ['seconds'] and not lt_r.args \
+        and _plain_number(lt_r.keywords[0].value, 'lifetime')
+    unit_w = lt_w is not None and any(method_call(c, 'total_seconds') is not None and dotted(method_call(c, 'total_seconds')) == f'{ma}.lifetime' for c in calls_in(lt_w))
+    ctx.ob(rule, 'Peer: the lifetime is published in whole SECONDS of the full duration (total_seconds) and read back as seconds -- the deadline the other operators compute is the one '
+           'the owner meant', unit_r and unit_w, loc=init.loc(lt_r) if lt_r is not None else init.loc(), construct=construct(init, 'keys:lifetime unit'), detail=f'read {norm(lt_r)}; written {norm(lt_w)}')
+    ls_r, ls_w = sets.get('lastseen'), written.get('lastseen')
+    parse = ls_r is not None and any((repo.resolve(init.module, c.func) or '') in ('iso8601.parse_date', 'datetime.datetime.fromisoformat') and c.args and dotted(c.args[0]) == 'lastseen' for c in calls_in(ls_r))
+    fmt = ls_w is not None and any(method_call(c, 'isoformat') is not None and dotted(method_call(c, 'isoformat')) == f'{ma}.lastseen' for c in calls_in(ls_w))
+    ctx.ob(rule, 'Peer: lastseen is published in ISO-8601 and parsed as such', parse and fmt, loc=init.loc(ls_r) if ls_r is not None else init.loc(), construct=construct(init, 'keys:lastseen format'))
+    pr_r, pr_w = sets.get('priority'), written.get('priority')
+    ctx.ob(rule, 'Peer: the priority and the identity are taken as given (the priority a peer publishes is the one the others compare with their own)',
+           dotted(pr_r) == 'priority' and dotted(sets.get('identity')) == 'identity' and pr_w is not None and f'{ma}.priority' in src(pr_w), loc=init.loc(), construct=construct(init, 'keys:priority/identity'))
+
+
+def check_touch_clean(ctx: Ctx, rule: str) -> None:
+    repo = ctx.repo
+    t = repo.fn(f'{PEER}.touch')
+    ctx.analysed(t)
+    st, lt = param(t, 'settings'), param(t, 'lifetime')
+    ctors = [c for c in calls_in(t.node) if any(n.endswith('peering.Peer') for n in repo.callee_names(t, c))]
+    ctx.require_sites(rule, 'touch: construction of the own record', len(ctors), 1, t.loc())
+    for c in ctors:
+        ctx.ob(rule, 'touch: the own record carries the operator\'s configured priority and its own identity', dotted(org(t, kwarg(c, 'priority'))) == f'{st}.peering.priority'
+               and dotted(kwarg(c, 'identity')) == param(t, 'identity'), loc=t.loc(c), construct=construct(t, 'config:Peer(priority=settings.peering.priority)'), detail=norm(kwarg(c, 'priority')))
+        lv = org(t, kwarg(c, 'lifetime'))
+        ok = False
+        if isinstance(lv, ast.IfExp):
+            atoms: set = set()
+            test = bexpr(t, lv.test, role_leaf(lambda e: 'lifetime' if dotted(e) == lt else None), atoms)
+            if atoms == {'none:lifetime'}:
+                dflt, given = (lv.body, lv.orelse) if test({'none:lifetime': True}) else (lv.orelse, lv.body)
+                ok = dotted(dflt) == f'{st}.peering.lifetime' and dotted(given) == lt and test({'none:lifetime': True}) != test({'none:lifetime': False})
+        ctx.ob(rule, 'touch: without an explicit lifetime the record lives for the configured settings.peering.lifetime (a given one, including 0, is used as it is)', ok, loc=t.loc(c),
+               construct=construct(t, 'formula:default lifetime'), detail=norm(lv))
+    for ref, what in ((f'{PEER}.touch', 'touch'), (f'{PEER}.clean', 'clean')):
+        f = repo.fn(ref)
+        ctx.analysed(f)
+        sent = [c for c in calls_in(f.node) if is_call_to(repo, f, c, 'patching.patch_obj')]
+        ctx.require_sites(rule, f'{what}: the patch request', len(sent), 1, f.loc())
+        for c in sent:
+            pv = kwarg(c, 'patch')
+            grown = [n for n in walk_no_defs(f.node) if isinstance(n, ast.AugAssign) and isinstance(n.op, ast.BitOr) and dotted(n.target) == dotted(pv)
+                     and isinstance(n.value, ast.Dict) and any(isinstance(k, ast.Constant) and k.value == 'status' for k in n.value.keys)]
+            ok = dotted(org(f, kwarg(c, 'name'))) == f'{param(f, "settings")}.peering.name' and dotted(kwarg(c, 'resource')) == param(f, 'resource') \
+                and dotted(kwarg(c, 'namespace')) == param(f, 'namespace') and len(grown) == 1 and isinstance(f.module.parent.get(c), ast.Await)
+            ctx.ob(rule, f'{what}: the status payload is sent (awaited) to the configured peering object (settings.peering.name) of the given peering resource and namespace', ok,
+                   loc=f.loc(c), construct=construct(f, 'config:patch_obj(name, resource, namespace, patch)'))
+    cl = repo.fn(f'{PEER}.clean')
+    comps = [n for n in walk_no_defs(cl.node) if isinstance(n, ast.DictComp)]
+    ok = len(comps) == 1 and len(comps[0].generators) == 1 and dotted(comps[0].generators[0].iter) == param(cl, 'peers') and not comps[0].generators[0].ifs \
+        and isinstance(comps[0].generators[0].target, ast.Name) and dotted(comps[0].key) == f'{comps[0].generators[0].target.id}.identity' and is_none(comps[0].value)
+    ctx.ob(rule, 'clean: the record of EVERY given (dead) peer is removed (set to None under its identity)', ok, loc=cl.loc(comps[0]) if comps else cl.loc(), construct=construct(cl, 'flow:{peer.identity: None for all}'))
+    # callers address the same peering object and write/clean as themselves
+    for caller in (f'{PEER}.keepalive', f'{PEER}.process_peering_event'):
+        f = repo.fn(caller)
+        ctx.analysed(f)
+        for c in [c for c in ast.walk(f.node) if isinstance(c, ast.Call) and is_call_to(repo, f, c, f'{PEER}.touch', f'{PEER}.clean')]:
+            names = ('resource', 'namespace', 'settings') + (('identity',) if is_call_to(repo, f, c, f'{PEER}.touch') else ())
+            wrong = [k for k in names if dotted(kwarg(c, k)) != param(f, k)]
+            ctx.ob(rule, f'{f.name}: {norm(c.func)}() addresses the peering object this task was started for, as this operator', not wrong, loc=f.loc(c),
+                   construct=construct(f, f'config:{norm(c.func)}(resource=, namespace=, identity=)'), detail=', '.join(wrong))
+    pe = repo.fn(f'{PEER}.process_peering_event')
+    sleeps = [c for c in calls_in(pe.node) if is_call_to(repo, pe, c, 'aiotime.sleep')]
+    for c in sleeps:
+        comp = org(pe, c.args[0] if c.args else kwarg(c, 'delays'))
+        ok = False
+        if isinstance(comp, ast.ListComp) and len(comp.generators) == 1 and isinstance(comp.generators[0].target, ast.Name):
+            v = comp.generators[0].target.id
+            e = comp.elt
+            ts = isinstance(e, ast.Call) and method_call(e, 'total_seconds') is not None
+            diff = method_call(e, 'total_seconds') if ts else None
+            now = org(pe, diff.right) if isinstance(diff, ast.BinOp) else None
+            ok = ts and isinstance(diff, ast.BinOp) and isinstance(diff.op, ast.Sub) and dotted(diff.left) == f'{v}.deadline' and isinstance(now, ast.Call) \
+                and (repo.resolve(pe.module, now.func) or '').endswith('datetime.now')
+        ctx.ob(rule, 'process_peering_event: the time to sleep per blocking peer is (its deadline - now) in seconds (positive while the peer is alive: no busy loop, no oversleeping)', bool(ok),
+               loc=pe.loc(c), construct=construct(pe, 'formula:delay = deadline - now'), detail=norm(comp))
+
+
+def check_own_id(ctx: Ctx, rule: str) -> None:
+    repo = ctx.repo
+    f = repo.fn(f'{PEER}.detect_own_id')
+    ctx.analysed(f)
+    manual = param(f, 'manual')
+    rets = [n for n in walk_no_defs(f.node) if isinstance(n, ast.Return) and n.value is not None]
+
+    def kinds_of(e: ast.AST, seen: Optional[set] = None) -> set:
+        seen = set() if seen is None else seen
+        out = set()
+        for n in ast.walk(e):
+            if isinstance(n, ast.Call):
+                r = repo.resolve(f.module, n.func) or ''
+                out |= {'time'} if r.endswith('datetime.now') else {'random'} if r.startswith('random.') else {'user'} if r == 'getpass.getuser' else {'host'} if 'hostname' in r else \
+                    {'pod'} if r in ('os.environ.get', 'os.getenv') else set()
+            if isinstance(n, ast.Name) and n.id not in seen:
+                seen.add(n.id)
+                for d in defs_of(f, n.id):
+                    out |= kinds_of(d, seen)
+        return out
+    pods = [r for r in rets if kinds_of(r.value) == {'pod'}]
+    g = cfg_of(ctx, f)[1]
+    ok = False
+    for r in pods:
+        n = [x for x in g.nodes if x.kind == 'return' and x.stmt is r]
+        conds = dominating_conditions(g, n[0]) if n else []
+        ok = any(cond_implies(t, o, lambda e, oo: isinstance(e, ast.Compare) and isinstance(e.ops[0], ast.Is) and is_none(e.comparators[0]) and kinds_of(e.left) == {'pod'} and oo is False) for t, o, _ in conds)
+    ctx.ob(rule, 'detect_own_id: a configured POD_ID (whenever it is set) is the identity', len(pods) == 1 and ok, loc=f.loc(pods[0]) if pods else f.loc(), construct=construct(f, 'guard:POD_ID is not None'))
+    gen = [r for r in rets if r not in pods]
+    ok = False
+    detail = ''
+    for r in gen:
+        v = r.value.args[0] if isinstance(r.value, ast.Call) and len(r.value.args) == 1 else r.value
+        v = org(f, v)
+        if isinstance(v, ast.IfExp):
+            atoms: set = set()
+            test = bexpr(f, v.test, lambda e: ('manual', True) if dotted(e) == manual else None, atoms)
+            auto, man = (v.orelse, v.body) if test({'manual': True}) else (v.body, v.orelse)
+            ka, km = kinds_of(auto), kinds_of(man)
+            detail = f'automatic: {sorted(ka)}, manual: {sorted(km)}'
+            ok = atoms == {'manual'} and ka >= {'user', 'host', 'time', 'random'} and km >= {'user', 'host'} and not (km & {'time', 'random'})
+    ctx.ob(rule, 'detect_own_id: an automatically generated identity combines user, host, the start time and a random part (two operators started by the same user on the same host '
+           'are still two peers); only a manual identity is the stable user@host', len(gen) == 1 and ok, loc=f.loc(gen[0]) if gen else f.loc(), construct=construct(f, 'flow:identity inputs'), detail=detail)
+
+
+def check_guess_selectors(ctx: Ctx, rule: str) -> None:
+    repo = ctx.repo
+    f = repo.fn(f'{PEER}.guess_selectors')
+    ctx.analysed(f)
+    st = param(f, 'settings')
+    paths = absint.analyse(repo, f, absint.Config())
+    atoms = {'ALONE': rf'^truthy\({st}\.peering\.standalone\)$', 'CLUSTER': rf'^truthy\({st}\.peering\.clusterwide\)$', 'NAMESPACED': rf'^truthy\({st}\.peering\.namespaced\)$'}
+
+    def observe(p):
+        if p.status == 'raise':
+            return 'raise'
+        if p.retval is None or p.retval.kind != 'coll' or p.retval.data[0] != 'display':
+            return f'? {p.retval.key[:40] if p.retval else None}'
+        names = sorted(e.key.rsplit('.', 1)[-1] for e in p.retval.data[1])
+        return ' '.join(names)
+
+    def spec(v):
+        if v['ALONE']:
+            return ''
+        if v['CLUSTER']:
+            return 'CLUSTER_PEERINGS_K CLUSTER_PEERINGS_Z'
+        return 'NAMESPACED_PEERINGS_K NAMESPACED_PEERINGS_Z' if v['NAMESPACED'] else 'raise'
+    table_check(ctx, rule, f, paths, atoms, spec, observe,
+                what='guess_selectors: standalone => no peering at all; cluster-wide peering => the cluster-scoped peering resources (both API groups); namespaced peering => the '
+                     'namespaced ones; anything else is refused')
+    for cname, word in (('CLUSTER_PEERINGS_K', 'clusterkopfpeerings'), ('CLUSTER_PEERINGS_Z', 'clusterkopfpeerings'), ('NAMESPACED_PEERINGS_K', 'kopfpeerings'), ('NAMESPACED_PEERINGS_Z', 'kopfpeerings')):
+        v = repo.const(f'{REF}.{cname}')
+        plural = v.args[-1].value if isinstance(v, ast.Call) and v.args and isinstance(v.args[-1], ast.Constant) else None
+        ctx.ob(rule, f'references.{cname} selects the `{word}` resource', plural == word, loc=repo.module(REF).relpath(), construct=f'{REF}.{cname}:config:plural', detail=str(plural))
 
 
 EXTRA = {
@@ -1723,6 +2418,9 @@ EXTRA = {
             (check_resource_identity, 'R19.28'), (check_get_url, 'R19.29'), (check_selector_check, 'R19.30'), (check_selector_select, 'R19.31'),
             (check_backbone, 'R19.32'), (check_match_namespace, 'R19.33'), (check_ensemble, 'R19.34'), (check_terminate, 'R19.35'),
             (check_adjust_tasks, 'R19.36'), (check_spawn_keys, 'R19.37'), (check_iter_jsonlines, 'R19.38'), (check_stream, 'R19.39'),
-            (check_list_objs, 'R19.40'), (check_handover, 'R19.41'), (check_scanning, 'R19.42')],
-    'C13': [(check_peering_wiring, 'R13.24'), (check_peering_presence, 'R13.25')],
+            (check_list_objs, 'R19.40'), (check_handover, 'R19.41'), (check_scanning, 'R19.42'), (check_stream_faults, 'R19.43')],
+    'C12': [(check_vault_select, 'R12.20'), (check_vault_items, 'R12.21'), (check_vault_expiry, 'R12.22'), (check_vault_reauth, 'R12.23'),
+            (check_vault_cleanup, 'R12.24'), (check_vault_extended, 'R12.25'), (check_request_handover, 'R12.26')],
+    'C13': [(check_peer_record, 'R13.20'), (check_touch_clean, 'R13.21'), (check_own_id, 'R13.22'), (check_guess_selectors, 'R13.23'),
+            (check_peering_wiring, 'R13.24'), (check_peering_presence, 'R13.25')],
 }
